@@ -310,8 +310,18 @@ func run(c *eng.Ctx) error {
 		} else {
 			s = build(pats[t%len(pats)], rng, c.Quick())
 		}
+		// blob[0] occurs nowhere else, so no concatenation of two or more prefixes can equal the blob by accident
+		// (the specification abstracts dst to a sequence of prefix lengths)
 		blob := make([]byte, s.n)
 		rng.Read(blob)
+		for i := range blob {
+			if blob[i] == 0xFF {
+				blob[i] = 0x7F
+			}
+		}
+		if s.n > 0 {
+			blob[0] = 0xFF
+		}
 		rec := &recorder{}
 		recs[t] = rec
 		var script []any
